@@ -407,6 +407,20 @@ fn lu_small() -> Option<String> {
     None
 }
 
+/// C16 (finding F23): DECC's pivot search compares |re| + |im|, so the modulus of a stored complex multiplier can exceed 1
+fn complex_multiplier_modulus() -> Option<String> {
+    use ivp::matrix::{lu_decomp_complex, Matrix};
+    let mut ar = Matrix::from_vec(2, 2, vec![1.0, 1.0, 2.0, 1.0]);
+    let mut ai = Matrix::from_vec(2, 2, vec![1.0, 0.0, 0.0, 0.0]);
+    let mut ip = vec![0usize; 2];
+    if lu_decomp_complex(&mut ar, &mut ai, &mut ip).is_err() { return None; }
+    let m = (ar[(1, 0)] * ar[(1, 0)] + ai[(1, 0)] * ai[(1, 0)]).sqrt();
+    if m > 1.0 + 1e-12 {
+        return Some(format!("A = [[1+i, 1],[2, 1]]: lu_decomp_complex keeps row 0 as pivot row (|1|+|1| = |2|+|0|) and stores the multiplier ({}, {}) of modulus {}", ar[(1, 0)], ai[(1, 0)], m));
+    }
+    None
+}
+
 fn main() {
     let which = std::env::args().nth(1).unwrap_or_default();
     let r = match which.as_str() {
@@ -417,6 +431,7 @@ fn main() {
         "default_mass" => default_mass(),
         "matrix_dense_model" => matrix_dense_model(),
         "lu_small" => lu_small(),
+        "complex_multiplier_modulus" => complex_multiplier_modulus(),
         "rk4_overshoot" => rk4_overshoot(),
         "counters" => counters(),
         "matrix_arith_dense_model" => matrix_arith_dense_model(),
